@@ -111,6 +111,7 @@ func main() {
 	flag.BoolVar(&optSymIdx, "symidx", false, "keep byte indexes symbolic")
 	flag.BoolVar(&optSymLen, "symlen", false, "keep copy lengths symbolic")
 	flag.BoolVar(&optNoModel, "nomodel", false, "disable model caching")
+	flag.BoolVar(&optNoIfConv, "noifconv", false, "disable if-conversion")
 	flag.Parse()
 	results, err := runAll(*repo, *verif, strings.Fields(*pkgPat), *hre, *solver, *tier, *timeout, *jobs, *verbose)
 	if err != nil {
@@ -248,7 +249,7 @@ func runAll(repo, verif string, pkgPats []string, hre, solver, tier string, time
 	return merged, nil
 }
 
-var optSymIdx, optSymLen, optNoModel bool
+var optSymIdx, optSymLen, optNoModel, optNoIfConv bool
 
 func firstLine(s string) string {
 	if i := strings.IndexByte(s, '\n'); i >= 0 {
@@ -270,7 +271,10 @@ func runHarness(prog *ssa.Program, pkg *ssa.Package, fn *ssa.Function, solver, t
 	e := &Engine{c: ctx, sol: sol, prog: prog, finfo: map[*ssa.Function]*fnInfo{}, globals: map[*ssa.Global]int{},
 		inited: map[*ssa.Package]bool{}, vioSites: map[string]bool{}, reached: res.Reached, maxSteps: maxSteps,
 		deadline: t0.Add(time.Duration(timeout) * time.Second), verbose: verbose, funcsSeen: map[string]bool{},
-		harness: fn.Name(), tier: tier, symIdx: optSymIdx, symLen: optSymLen, noModel: optNoModel, shard: shard}
+		harness: fn.Name(), tier: tier, symIdx: optSymIdx, symLen: optSymLen, noModel: optNoModel, shard: shard, ifShapes: map[*ssa.If]*ifShape{}, noIfConv: optNoIfConv}
+	if os.Getenv("GOSMT_DEBUG") != "" {
+		e.dbgLabels = dbgLabelsG
+	}
 	defer func() {
 		res.WallS = time.Since(t0).Seconds()
 		res.Paths = e.pathsDone
